@@ -28,7 +28,7 @@ def chunky(rng):
                    for k in [rng.randint(2, 4)] for i in range(k))
 
 
-CHUNK_TEMPLATES = ["*[{k}]: title\n\nuse {k} and {j} here {k}.\n", "*[{k}]: one\n*[{j}]: two\n\n{j} {k}{j}\n", "text[^{k}] more[^{j}]\n\n[^{k}]: note {j}\n\n[^{j}]: n\n",
+CHUNK_TEMPLATES = ["*[{k}]: long\n*[{p}]: short\n\nx {k} y {p} z\n", "*[{p}]: short\n*[{k}]: long\n\nx {k} y\n", "*[{k}]: title\n\nuse {k} and {j} here {k}.\n", "*[{k}]: one\n*[{j}]: two\n\n{j} {k}{j}\n", "text[^{k}] more[^{j}]\n\n[^{k}]: note {j}\n\n[^{j}]: n\n",
                    "[{k}]: /u\n\n[{k}] and [x][{k}] and [{j}]\n", "plain {k} &{k}; &amp{j}; {j}\n", "*{k}* **{j}** `{k}` [{k}](/{j})\n", "| {k} | {j} |\n|---|---|\n| {j} | {k} |\n",
                    "{k}\n: {j}\n", "# {k} {j}\n\n{k}\n===\n", "- [ ] {k}\n- {j}\n", "<{k}> <a {j}> http://{k}/{j} {k}@{j}.com\n", "~{k}~ ^{j}^ =={k}== ~~{j}~~ ^^{k}^^ >!{j}!< ${k}$ [{k}({j})]\n"]
 
@@ -38,7 +38,9 @@ def docs(ctx, n):
     for _ in range(n):
         r = ctx.rng.random()
         if r < 0.12:
-            out.append(ctx.rng.choice(CHUNK_TEMPLATES).replace("{k}", chunky(ctx.rng)).replace("{j}", chunky(ctx.rng)))
+            k = chunky(ctx.rng)
+            pre = k[:max(1, min(len(k) - 1, ctx.rng.randint(1, 4)))]          # a proper prefix of k (an abbreviation key that is a prefix of another)
+            out.append(ctx.rng.choice(CHUNK_TEMPLATES).replace("{k}", k).replace("{j}", chunky(ctx.rng)).replace("{p}", pre))
         elif r < 0.5:
             k = ctx.rng.randint(1, 7)
             lines = [ctx.rng.choice(EXTRA_LINES) if ctx.rng.random() < 0.8 else gen.md_line(ctx.rng, 5) for _ in range(k)]
@@ -85,15 +87,34 @@ def oracle(ctx, ds, n_cfg):
             except Exception as e:
                 y = ("EXC", type(e).__name__)
             if x != y:
-                kind = "block" if (isinstance(x, str) and isinstance(y, str) and x.count("<p>") != y.count("<p>")) or "<table" in str(x) + str(y) or "<dl" in str(x) + str(y) else "inline"
+                import re as _re
+                keys = _re.findall(r"^ {0,3}\*\[([^\]\n]+)\]:", d, _re.M)
+                prefix_keys = "abbr" in pl and any(a != b and b.startswith(a) for a in keys for b in keys)
+                kind = "abbr-prefix-key" if prefix_keys else "block" if (isinstance(x, str) and isinstance(y, str) and x.count("<p>") != y.count("<p>")) or "<table" in str(x) + str(y) or "<dl" in str(x) + str(y) else "inline"
                 ctx.fail("speedup-differs:%s:%s" % (kind, "hardwrap" if hw else "std"),
                          "plugins %s hard_wrap=%s: output differs with speedup for %r" % (pl, hw, d),
                          {"plugins": pl, "hard_wrap": hw, "escape": esc, "doc": d, "without": x, "with": y})
     return n
 
 
+def replay_known(ctx):
+    import mistune
+    for k in ctx.known:
+        ex = k.get("example") or {}
+        if "doc" not in ex:
+            continue
+        a = mistune.create_markdown(escape=ex["escape"], hard_wrap=ex["hard_wrap"], plugins=ex["plugins"])
+        b = mistune.create_markdown(escape=ex["escape"], hard_wrap=ex["hard_wrap"], plugins=ex["plugins"] + ["speedup"])
+        x, y = a(ex["doc"]), b(ex["doc"])
+        if x != y:
+            ctx.fail("speedup-differs:abbr-prefix-key:std", "stored example of a known finding: output differs with speedup for %r" % ex["doc"], dict(ex, without=x, **{"with": y}))
+        else:
+            ctx.notes.append("a stored known-finding example no longer fails: %r" % ex["doc"])
+
+
 def run(ctx):
     ctx.broken += common.proof_stage(ctx, THEOREMS)
+    replay_known(ctx)
     n_rx, n_m, rx_broken, unsup = rxconf.run(ctx, per_pattern=15 if ctx.quick() else 150)
     ctx.broken += rx_broken
     ds = docs(ctx, 2500 if ctx.quick() else 40000)
